@@ -58,6 +58,15 @@ Definition slices (h : heap) (cs : list col) : heap * frame :=
   let n := match cs with [] => 0%nat | c :: _ => length c end in
   (h ++ [cs], mkF false (length h) 0 n n 0).
 
+(* ---- frame.Values(cols): the columns are given with their own capacities (cells beyond
+        the length are the zero value); the frame's capacity is the SMALLEST of them, so
+        that no view can reach past the end of a column ---- *)
+Definition values (h : heap) (cs : list col) (extra : list nat) : heap * frame :=
+  let n := match cs with [] => 0%nat | c :: _ => length c end in
+  let a := map (fun ce => fst ce ++ repeat 0 (snd ce)) (combine cs extra) in
+  let spare := fold_right Nat.min (hd 0%nat extra) extra in
+  (h ++ [a], mkF false (length h) 0 n (n + spare) 0).
+
 (* ---- (Frame).Slice(i, j), frame.go:245 ---- *)
 Definition slice (f : frame) (i j : Z) : res frame :=
   if (i <? 0) || (j <? i) || (j >? Z.of_nat (fcap f)) then Panic
@@ -182,6 +191,7 @@ Definition prefixed (h : heap) (f : frame) (p : Z) : res frame :=
 Inductive op :=
 | OSlices (cs : list col)               (* frame.Slices: new allocation, new pool entry *)
 | OMake (nc len cap : nat)
+| OValues (cs : list col) (extra : list nat) (* frame.Values over columns with spare capacity extra[c] *)
 | OSlice (f : nat) (i j : Z)            (* pool index; new pool entry unless panic *)
 | OCopy (dst src : nat)
 | OAppend (dst : option nat) (src : nat) (* None = the zero Frame{} *)
@@ -217,6 +227,7 @@ Definition step (s : state) (o : op) : state * out :=
   match o with
   | OSlices cs => let '(h1, f) := slices h cs in push h1 s f
   | OMake nc len cap => let '(h1, f) := make h nc len cap 0 in push h1 s f
+  | OValues cs extra => let '(h1, f) := values h cs extra in push h1 s f
   | OSlice f i j =>
       match slice (getf s f) i j with Ok g => push h s g | Panic => (s, RPanic) end
   | OCopy d r => let '(h1, n) := copy h (getf s d) (getf s r) in (mkS h1 (spool s), RNum (Z.of_nat n))
